@@ -778,7 +778,12 @@ func c01CliTweaks(g *G, L *Layout) {
 		L.OSEnv = append(L.OSEnv, "COMPOSE_PROJECT_NAME=fromos")
 	}
 	if g.chance("cli-compose-file-env", 1, 4) {
-		L.OSEnv = append(L.OSEnv, "COMPOSE_FILE="+strings.Join(L.Main, ":"))
+		files := append([]string(nil), L.Main...)
+		if len(files) >= 2 && g.chance("cli-compose-file-repeat", 1, 3) {
+			// the same file named twice (here: first and last): loaded, and merged, in the order given
+			files = append(files, files[0])
+		}
+		L.OSEnv = append(L.OSEnv, "COMPOSE_FILE="+strings.Join(files, ":"))
 		L.Main = nil
 	} else if g.chance("cli-default-path", 1, 4) && len(L.Main) == 1 {
 		// discovered from the working directory: an implicitly probed file, not an explicitly referenced one
